@@ -1,17 +1,21 @@
 #!/bin/bash
 # Sensitivity regression: run every stored seeded change against the check of its
-# property (quick tier) and print one line per change. /repo must be clean; it is
-# restored after every run. Usage: tools/run_all_seeded.sh [seed]
-SEED=${1:-1}
+# property (quick tier) on scratch copies (tools/try_seeded.sh) and print one line per
+# change. A file check_with in the change's directory names another property whose check
+# is the one expected to catch it, or "none" for a change recorded as out of reach.
+# Usage: tools/run_all_seeded.sh [seed] [name-pattern]
+SEED=${1:-1}; PAT=${2:-}
 cd /verif
-caught=0; missed=0
-for d in seeded/*/; do
+caught=0; missed=0; skipped=0
+for d in seeded/*${PAT}*/; do
   name=$(basename "$d")
   id=${name%%-*}
+  [ -f "$d/check_with" ] && id=$(cat "$d/check_with")
+  if [ "$id" = "none" ]; then skipped=$((skipped+1)); echo "OUT-OF-REACH $name"; continue; fi
   out=$(tools/try_seeded.sh "$id" "/verif/${d}patch.diff" quick "$SEED" 2>&1 | head -1)
   rc=$(echo "$out" | sed -n 's/.* rc=\([0-9]*\) .*/\1/p')
   if [ "$rc" = "1" ]; then caught=$((caught+1)); verdict=CAUGHT; else missed=$((missed+1)); verdict="MISSED(rc=$rc)"; fi
   echo "$verdict $name $out"
 done
-echo "caught=$caught missed=$missed"
+echo "caught=$caught missed=$missed out_of_reach=$skipped"
 [ "$missed" = "0" ]
